@@ -1,1 +1,270 @@
-import BigtreeModel.Basic
+import BigtreeModel.Helper
+import BigtreeModel.HelperDiff
+import BigtreeProofs.Lemmas.DiffDefs
+import BigtreeProofs.Lemmas.DiffWalk
+import BigtreeProofs.Lemmas.DiffMark
+import BigtreeProofs.Lemmas.DiffJoin
+import BigtreeProofs.Lemmas.DiffRows
+import BigtreeProofs.Lemmas.DiffRebuild
+import BigtreeProofs.Lemmas.DiffMain
+/-!
+# C15 — get_tree_diff reports exactly the differences between two trees
+
+Model: `Helper.treeDiff` (Model B, written at the level the Python works on: the two data-frame
+exports as lists of rows with `path_name` strings, the outer merge with indicator, `_add_suffix`
+on the split path string, the per-attribute comparison, `dataframe_to_tree` as a fold of path
+insertions, `add_dict_to_tree_by_path` for the value pairs and for the ` (~)` renames in
+reverse-sorted order of the path strings).
+
+Specification (component level, `HelperDiff.lean`): a node of a tree is identified by the list of
+names from the root (`compPaths`); `status` compares the two trees at a path; `keptPaths` are the
+paths the result must contain; `expected` lists, for every kept path, its marked form
+(`markFull`: every component carries the mark of the prefix ending there) and the value pairs it
+carries. `diff_spec` says that the result of `treeDiff` has exactly these rows (as a multiset of
+(component path, attributes)); the other theorems are read off from it.
+
+Domain (`DiffOK`): same root name; names non-empty, without the separator character, not ending in
+one of the three marks, distinct among siblings; the separator is none of the mark characters.
+-/
+namespace C15
+open Helper
+
+/-! ## the example of the non-vacuity checks -/
+
+def age : Str := ['a', 'g', 'e']
+
+/-- `r(b, bc, a[age=1](x))` -/
+def ex1 : Tree :=
+  .node 0 ['r'] [] [
+    .node 1 ['b'] [] [],
+    .node 2 ['b', 'c'] [] [],
+    .node 3 ['a'] [(age, .int 1)] [.node 4 ['x'] [] []]]
+
+/-- `r(bc, a[age=2](x, y))` -/
+def ex2 : Tree :=
+  .node 0 ['r'] [] [
+    .node 1 ['b', 'c'] [] [],
+    .node 2 ['a'] [(age, .int 2)] [.node 3 ['x'] [] [], .node 4 ['y'] [] []]]
+
+theorem ex1_ok : NamesOK '/' ex1 :=
+  ⟨by decide, by decide, by unfold endsWithMark; decide, by decide⟩
+theorem ex2_ok : NamesOK '/' ex2 :=
+  ⟨by decide, by decide, by unfold endsWithMark; decide, by decide⟩
+theorem ex_ok : DiffOK '/' ex1 ex2 := ⟨by decide, ex1_ok, ex2_ok, rfl⟩
+theorem ex_self_ok : DiffOK '/' ex1 ex1 := ⟨by decide, ex1_ok, ex1_ok, rfl⟩
+
+/-- the model's answer on the example: `r(b (-), a (~)[age=(1,2)](y (+)))` -/
+def exDiff : Tree :=
+  .node 0 ['r'] [] [
+    .node 0 ['b', ' ', '(', '-', ')'] [] [],
+    .node 0 ['a', ' ', '(', '~', ')'] [(age, .int 1), (age, .int 2)] [
+      .node 0 ['y', ' ', '(', '+', ')'] [] []]]
+
+theorem ex_result : treeDiff ['/'] ex1 ex2 true [age] = .ok (some exDiff) := rfl
+
+/-! ## the core theorem -/
+
+/-- **`get_tree_diff` returns exactly the expected rows.** No kept path: `None` (the function
+    returns nothing). Otherwise a tree whose nodes are — as (component path, attributes), up to
+    order — exactly the kept paths, each in its marked form and carrying its value pairs. -/
+theorem diff_spec (c : Char) (t1 t2 : Tree) (onlyDiff : Bool) (attrList : List Str)
+    (hA : attrList.Nodup) (h : DiffOK c t1 t2) :
+    (keptPaths attrList t1 t2 onlyDiff = [] → treeDiff [c] t1 t2 onlyDiff attrList = .ok none) ∧
+    (keptPaths attrList t1 t2 onlyDiff ≠ [] →
+      ∃ D, treeDiff [c] t1 t2 onlyDiff attrList = .ok (some D) ∧
+        (compRows D).Perm (expected attrList t1 t2 onlyDiff)) := by
+  constructor
+  · intro he
+    exact diff_none c t1 t2 onlyDiff attrList h ((keptPaths_eq_nil_iff attrList t1 t2 onlyDiff).mp he)
+  · intro hne
+    exact diff_main c t1 t2 onlyDiff attrList hA h
+      (fun he => hne ((keptPaths_eq_nil_iff attrList t1 t2 onlyDiff).mpr he))
+
+example : ∃ D, treeDiff ['/'] ex1 ex2 true [age] = .ok (some D) ∧
+    (compRows D).Perm (expected [age] ex1 ex2 true) :=
+  (diff_spec '/' ex1 ex2 true [age] (by decide) ex_ok).2 (by decide)
+example : treeDiff ['/'] ex1 ex1 true [age] = .ok none :=
+  (diff_spec '/' ex1 ex1 true [age] (by decide) ex_self_ok).1 (by decide)
+
+/-- a result `some D` determines the rows -/
+theorem rows_of_result (c : Char) (t1 t2 : Tree) (onlyDiff : Bool) (attrList : List Str)
+    (hA : attrList.Nodup) (h : DiffOK c t1 t2) (D : Tree)
+    (hD : treeDiff [c] t1 t2 onlyDiff attrList = .ok (some D)) :
+    (compRows D).Perm (expected attrList t1 t2 onlyDiff) := by
+  have hs := diff_spec c t1 t2 onlyDiff attrList hA h
+  by_cases he : keptPaths attrList t1 t2 onlyDiff = []
+  · rw [hs.1 he] at hD; cases hD
+  · obtain ⟨D', hD', hp⟩ := hs.2 he
+    rw [hD] at hD'
+    cases hD'
+    exact hp
+
+/-! ## status facts -/
+
+theorem status_removed_iff (attrList : List Str) (t1 t2 : Tree) (p : List Str) :
+    status attrList t1 t2 p = .removed ↔ p ∈ compPaths t1 ∧ p ∉ compPaths t2 := by
+  rw [← attrsAt_eq_none_iff, ← attrsAt_isSome_iff]
+  unfold status
+  cases attrsAt t1 p <;> cases attrsAt t2 p <;> simp
+  split <;> simp
+
+theorem status_added_iff (attrList : List Str) (t1 t2 : Tree) (p : List Str) :
+    status attrList t1 t2 p = .added ↔ p ∉ compPaths t1 ∧ p ∈ compPaths t2 := by
+  rw [← attrsAt_eq_none_iff, ← attrsAt_isSome_iff]
+  unfold status
+  cases attrsAt t1 p <;> cases attrsAt t2 p <;> simp
+  split <;> simp
+
+theorem status_changed_iff' (attrList : List Str) (t1 t2 : Tree) (p : List Str) :
+    status attrList t1 t2 p = .changed ↔
+      ∃ a1 a2, attrsAt t1 p = some a1 ∧ attrsAt t2 p = some a2 ∧
+        ∃ k ∈ attrList, getAttr a1 k ≠ getAttr a2 k := by
+  unfold status
+  cases attrsAt t1 p <;> cases attrsAt t2 p <;> simp
+  rename_i a1 a2
+  rw [← changedAttrs_ne_nil_iff]
+
+theorem kept_nomark (c : Char) (t1 t2 : Tree) (onlyDiff : Bool) (attrList : List Str) (h : DiffOK c t1 t2)
+    (p : List Str) (hp : p ∈ keptPaths attrList t1 t2 onlyDiff) :
+    p ≠ [] ∧ ∀ n ∈ p, ¬ endsWithMark n := by
+  have := allPaths_good c t1 t2 h p (keptPaths_sub attrList t1 t2 onlyDiff p hp)
+  exact ⟨this.1, fun n hn => (this.2 n hn).2.2⟩
+
+/-! ## the marks -/
+
+/-- every node of the result is a kept path in marked form, carries that path's value pairs,
+    un-marks to the path, and its own (last) mark says what happened to it: ` (-)` iff it is in the
+    first tree only, ` (+)` iff in the second only, ` (~)` iff in both with a listed attribute
+    differing -/
+theorem diff_marks (c : Char) (t1 t2 : Tree) (onlyDiff : Bool) (attrList : List Str)
+    (hA : attrList.Nodup) (h : DiffOK c t1 t2) (D : Tree)
+    (hD : treeDiff [c] t1 t2 onlyDiff attrList = .ok (some D)) :
+    ∀ m av, (m, av) ∈ compRows D →
+      ∃ p, p ∈ keptPaths attrList t1 t2 onlyDiff ∧ m = markFull (status attrList t1 t2) p ∧
+        av = carried attrList t1 t2 p ∧ unmark m = p ∧
+        (sufRemoved <:+ m.getLastD [] ↔ p ∈ compPaths t1 ∧ p ∉ compPaths t2) ∧
+        (sufAdded <:+ m.getLastD [] ↔ p ∉ compPaths t1 ∧ p ∈ compPaths t2) ∧
+        (sufChanged <:+ m.getLastD [] ↔
+          ∃ a1 a2, attrsAt t1 p = some a1 ∧ attrsAt t2 p = some a2 ∧
+            ∃ k ∈ attrList, getAttr a1 k ≠ getAttr a2 k) := by
+  intro m av hm
+  have hp := rows_of_result c t1 t2 onlyDiff attrList hA h D hD
+  have hm' := hp.mem_iff.mp hm
+  unfold expected at hm'
+  obtain ⟨p, hpk, he⟩ := List.mem_map.mp hm'
+  simp only [Prod.mk.injEq] at he
+  obtain ⟨rfl, rfl⟩ := he
+  obtain ⟨hne, hnm⟩ := kept_nomark c t1 t2 onlyDiff attrList h p hpk
+  have hlast : ¬ endsWithMark (p.getLast hne) := hnm _ (List.getLast_mem hne)
+  refine ⟨p, hpk, rfl, rfl, unmark_markFull _ p hnm, ?_, ?_, ?_⟩
+  · rw [getLastD_markFull _ p hne, sufRemoved_suffix_iff _ _ hlast, status_removed_iff]
+  · rw [getLastD_markFull _ p hne, sufAdded_suffix_iff _ _ hlast, status_added_iff]
+  · rw [getLastD_markFull _ p hne, sufChanged_suffix_iff _ _ hlast, status_changed_iff']
+
+example : ∃ m av, (m, av) ∈ compRows exDiff ∧ sufChanged <:+ m.getLastD [] ∧ av ≠ [] :=
+  ⟨[['r'], ['a', ' ', '(', '~', ')']], [(age, .int 1), (age, .int 2)], by decide, by decide, by decide⟩
+
+/-! ## which nodes are shown -/
+
+/-- nothing else changes: un-marking the result gives back exactly the kept paths (each once), and
+    no two nodes of the result have the same path -/
+theorem diff_no_other_change (c : Char) (t1 t2 : Tree) (onlyDiff : Bool) (attrList : List Str)
+    (hA : attrList.Nodup) (h : DiffOK c t1 t2) (D : Tree)
+    (hD : treeDiff [c] t1 t2 onlyDiff attrList = .ok (some D)) :
+    ((compRows D).map fun r => unmark r.1).Perm (keptPaths attrList t1 t2 onlyDiff)
+    ∧ (keptPaths attrList t1 t2 onlyDiff).Nodup
+    ∧ ((compRows D).map (·.1)).Nodup := by
+  have hp := rows_of_result c t1 t2 onlyDiff attrList hA h D hD
+  have hnd := keptPaths_nodup c attrList t1 t2 h onlyDiff
+  refine ⟨?_, hnd, ?_⟩
+  · refine (hp.map fun r => unmark r.1).trans (List.Perm.of_eq ?_)
+    unfold expected
+    rw [List.map_map]
+    conv => rhs; rw [← List.map_id (keptPaths attrList t1 t2 onlyDiff)]
+    apply List.map_congr_left
+    intro p hpk
+    exact unmark_markFull _ p (kept_nomark c t1 t2 onlyDiff attrList h p hpk).2
+  · refine ((hp.map (·.1)).nodup_iff).mpr ?_
+    unfold expected
+    rw [List.map_map]
+    apply nodup_map_on _ _ _ hnd
+    intro x hx y hy he
+    exact markFull_inj _ x y (kept_nomark c t1 t2 onlyDiff attrList h x hx).2
+      (kept_nomark c t1 t2 onlyDiff attrList h y hy).2 he
+
+example : ((compRows exDiff).map fun r => unmark r.1).Perm (keptPaths [age] ex1 ex2 true) :=
+  (diff_no_other_change '/' ex1 ex2 true [age] (by decide) ex_ok exDiff ex_result).1
+
+theorem mem_unmarked_iff (c : Char) (t1 t2 : Tree) (onlyDiff : Bool) (attrList : List Str)
+    (hA : attrList.Nodup) (h : DiffOK c t1 t2) (D : Tree)
+    (hD : treeDiff [c] t1 t2 onlyDiff attrList = .ok (some D)) (p : List Str) :
+    p ∈ (compRows D).map (fun r => unmark r.1) ↔ p ∈ keptPaths attrList t1 t2 onlyDiff :=
+  (diff_no_other_change c t1 t2 onlyDiff attrList hA h D hD).1.mem_iff
+
+/-- `only_diff=True`: the nodes shown are exactly the paths of either tree that lie on the way to
+    (or are) a removed / added / changed node -/
+theorem diff_nodes_only_diff (c : Char) (t1 t2 : Tree) (attrList : List Str)
+    (hA : attrList.Nodup) (h : DiffOK c t1 t2) (D : Tree)
+    (hD : treeDiff [c] t1 t2 true attrList = .ok (some D)) :
+    ∀ p, p ∈ (compRows D).map (fun r => unmark r.1) ↔
+      (p ∈ compPaths t1 ∨ p ∈ compPaths t2) ∧
+      ∃ q, (q ∈ compPaths t1 ∨ q ∈ compPaths t2) ∧ status attrList t1 t2 q ≠ .same ∧ p <+: q := by
+  intro p
+  rw [mem_unmarked_iff c t1 t2 true attrList hA h D hD]
+  unfold keptPaths
+  simp only [if_true, List.mem_filter, List.any_eq_true, Bool.and_eq_true, bne_iff_ne, ne_eq,
+    List.isPrefixOf_iff_prefix, mem_allPaths]
+
+example : [['r'], ['a']] ∈ (compRows exDiff).map (fun r => unmark r.1) ∧
+    [['r'], ['b', 'c']] ∉ (compRows exDiff).map (fun r => unmark r.1) := by decide
+
+/-- `only_diff=False`: every path of either tree is shown, and nothing else -/
+theorem diff_nodes_all (c : Char) (t1 t2 : Tree) (attrList : List Str)
+    (hA : attrList.Nodup) (h : DiffOK c t1 t2) (D : Tree)
+    (hD : treeDiff [c] t1 t2 false attrList = .ok (some D)) :
+    ∀ p, p ∈ (compRows D).map (fun r => unmark r.1) ↔ (p ∈ compPaths t1 ∨ p ∈ compPaths t2) := by
+  intro p
+  rw [mem_unmarked_iff c t1 t2 false attrList hA h D hD]
+  unfold keptPaths
+  simp only [Bool.false_eq_true, if_false, mem_allPaths]
+
+example : ∃ D, treeDiff ['/'] ex1 ex2 false [age] = .ok (some D) ∧
+    [['r'], ['b', 'c']] ∈ (compRows D).map (fun r => unmark r.1) := by
+  obtain ⟨D, hD, _⟩ := (diff_spec '/' ex1 ex2 false [age] (by decide) ex_ok).2 (by decide)
+  exact ⟨D, hD, (diff_nodes_all '/' ex1 ex2 [age] (by decide) ex_ok D hD _).mpr (by decide)⟩
+
+/-! ## identical trees -/
+
+/-- no difference anywhere ⇒ `only_diff=True` returns nothing -/
+theorem diff_identical_none (c : Char) (t1 t2 : Tree) (attrList : List Str)
+    (hA : attrList.Nodup) (h : DiffOK c t1 t2)
+    (hsame : ∀ p, status attrList t1 t2 p = .same) :
+    treeDiff [c] t1 t2 true attrList = .ok none := by
+  apply (diff_spec c t1 t2 true attrList hA h).1
+  unfold keptPaths
+  simp only [if_true]
+  rw [List.filter_eq_nil_iff]
+  intro p _
+  simp [hsame]
+
+example : ∀ p, status [] ex1 ex1 p = .same := by
+  intro p; unfold status; cases attrsAt ex1 p <;> simp [changedAttrs]
+
+theorem status_self (attrList : List Str) (t : Tree) (p : List Str) : status attrList t t p = .same := by
+  unfold status
+  cases attrsAt t p with
+  | none => rfl
+  | some a =>
+    have : changedAttrs attrList a a = [] := (changedAttrs_eq_nil_iff attrList a a).mpr (fun _ _ => rfl)
+    simp [this]
+
+/-- a tree compared with itself: nothing -/
+theorem diff_identical_self (c : Char) (t : Tree) (attrList : List Str)
+    (hA : attrList.Nodup) (h : DiffOK c t t) :
+    treeDiff [c] t t true attrList = .ok none :=
+  diff_identical_none c t t attrList hA h (status_self attrList t)
+
+example : treeDiff ['/'] ex1 ex1 true [age] = .ok none :=
+  diff_identical_self '/' ex1 [age] (by decide) ex_self_ok
+
+end C15
